@@ -92,6 +92,7 @@ IDManager::HeartBeater::~HeartBeater()
   DBGROUP_VERIF_POINT(kIdExitBegin, &_id_vec[*id_]);
   const auto id = *id_;
   id_.reset();  // expire the heartbeat before the ID can be handed to another thread
+  DBGROUP_VERIF_POINT(kIdExitMiddle, &_id_vec[id]);
   _id_vec[id].store(false, kRelaxed);
   DBGROUP_VERIF_POINT(kIdExitEnd, this);
 }
